@@ -4,7 +4,7 @@ import gen
 from props import gpcommon as G
 
 ID = "C02"
-RULE = ("Same generated reader/updater programs as C01 (all finite, every reader eventually leaves), all four flavors, membarrier on/off, "
+RULE = ("Same generated reader/updater programs as C01 (all finite, every reader eventually leaves), plus quiescent spin-waits: a thread that is outside any section (qsbr: offline) spins in application code, making no RCU call, until every synchronize_rcu() that was in flight has returned - those grace periods need nothing more from it, so only a correct wake-up protocol lets them finish; all four flavors, membarrier on/off, "
         "plus generated faults: k-th FUTEX_WAIT returns spuriously / fails with EINTR, k-th FUTEX_WAIT fails with ENOSYS (the documented spurious case) or every futex() call fails with ENOSYS (system call unavailable) "
         "(compat fallback). Oracle: every thread finishes; the engine reports deadlock (no runnable thread with all store buffers drained), "
         "'stuck' (no memory write or wake-up by any thread for 6000 scheduling steps) or a step-budget overrun that persists with a 10x budget. "
@@ -20,7 +20,7 @@ FAULTS = ("futex_spurious", "futex_eintr", "futex_wait_enosys", "futex_enosys_al
 def example(draw, tier):
     flavor = draw(st.sampled_from(gen.GP_FLAVORS))
     memb = draw(st.integers(0, 1)) if flavor in ("memb", "bp") else 1
-    prog, nops, nslots = gen.gp_program(draw, tier, flavor, dynamic=draw(st.booleans()), sync_weight=2)
+    prog, nops, nslots = gen.gp_program(draw, tier, flavor, dynamic=draw(st.booleans()), sync_weight=2, wait_ops=True)
     head = ["scen gp_" + flavor, "cfg membarrier %d" % memb]
     out = []
     for _ in range(gen.BATCH):
